@@ -42,6 +42,11 @@ def gen(tier, rng, harness, driver):
     # accepted and reproduced byte for byte by parse + print, and every registered value must report the stated type
     for name in C.run_lines([harness, "run"], ["api.list"])[0].split(","):
         lines.append("!api.fix " + name)
+    # a constructed module printed (or only queried through Ident / String / Type / Operands of the expression), then a global variable and a function
+    # RENAMED: the next print is the text of the same construction under the new names — for every kind of constant expression and aggregate constant
+    for name in C.run_lines([harness, "run"], ["rename.list"])[0].split(","):
+        for mode in "012":
+            lines.append("!rename.ok %s %s" % (name, mode))
     for site in ("call", "invoke", "callbr"):
         for kind in ("func", "param", "load", "bitcast", "alias", "asm"):
             for sg, nx in (("F(v;)", 0), ("F(i32;i8)", 0), ("G(i32;p0(i8))", 0), ("G(i32;p0(i8))", 2), ("G(v;)", 1), ("F(p0(F(v;));i32)", 0)):
